@@ -111,4 +111,29 @@ def rule_snapshot_always_replaced(ctx):
                   'current is assigned `%s`, not the snapshot built from this run\'s report' % d[:100], loc=w.loc())
 
 
-RULES = [rule_wait, rule_next_start, rule_snapshot_always_replaced]
+
+def rule_config_carried(ctx):
+    """The timing parameters the schedule is computed from are the configured ones: PayloadHistory::from_config copies
+    config.refresh / config.min_refresh unchanged and nothing else ever writes them."""
+    from lib.rules import agg_sites
+    b = ctx.body('payload::history::PayloadHistory::from_config')
+    lits = agg_sites(b, 'payload::history::PayloadHistory')
+    ctx.floor('K13', 'PayloadHistory literal in from_config', len(lits), 1)
+    for l in lits:
+        rv = l.stmt['rv']
+        for fld, src in (('refresh', 'config.refresh'), ('min_refresh', 'config.min_refresh')):
+            if fld not in rv['names']:
+                ctx.bad('K13', 'from_config:%s:field-missing' % fld, 'PayloadHistory has no field %s any more' % fld)
+                continue
+            d = describe(b.origin_of_operand(rv['ops'][rv['names'].index(fld)]))
+            ctx.check(d == src, 'K13', 'from_config:%s=%s' % (fld, src), '%s is the configured value' % fld,
+                      'PayloadHistory.%s is initialised with `%s` instead of %s: the wait between runs is no longer bounded by the '
+                      'configured value' % (fld, d[:120], src), loc=l.loc())
+    n = 0
+    for bb, site, how, f in writers_of_field(ctx, 'payload::history::PayloadHistory'):
+        if f in ('refresh', 'min_refresh') and how == 'assign':
+            n += 1
+            ctx.bad('K3', '%s-writer<-%s' % (f, bb.nid), 'PayloadHistory.%s is re-assigned in %s' % (f, bb.nid), loc=site.loc())
+    ctx.ok('K3', 'refresh/min_refresh:never-reassigned', 'no assignment to refresh / min_refresh after construction') if n == 0 else None
+
+RULES = [rule_wait, rule_next_start, rule_snapshot_always_replaced, rule_config_carried]
